@@ -90,7 +90,7 @@ Proof.
   destruct (nth_error (cur s) w) as [cw|] eqn:Ec; [|discriminate].
   destruct (nth_error (hand s) w) as [hw|] eqn:Eh; [|discriminate].
   destruct (nth_error (dq s) w) as [qw|] eqn:Eq; [|discriminate].
-  destruct m as [c|c| |v|j| | | |x| | ].
+  destruct m as [c|c| |v|j| | | |x| | |v].
   - (* CreateCF *)
     destruct cw as [|p|p]; try discriminate.
     destruct (is_fresh s c) eqn:Ef; [|discriminate]. injection Hm as <-.
@@ -207,6 +207,13 @@ Proof.
     pose proof (sumf_upd (w_cur t) (cur s) w (Run n) Sched Ec) as Hc. cbn [w_cur] in Hc.
     pose proof (sumf_upd (w_hand t) (hand s) w None (Some n) Eh) as Hh. cbn [w_hand] in Hh.
     split; [|intros Hl; specialize (H0 Hl)]; occs; lia.
+  - (* PassBase *)
+    destruct cw as [|p|p]; try discriminate. destruct hw as [x|]; try discriminate.
+    destruct (nth_error (dq s) v) as [qv|] eqn:Ev; [|discriminate]. injection Hm as <-.
+    intros t. destruct (HI t) as [H1 H0].
+    pose proof (sumf_upd (w_hand t) (hand s) w None (Some x) Eh) as Hh. cbn [w_hand] in Hh.
+    pose proof (sumf_upd (w_q t) (dq s) v (x :: qv) qv Ev) as Hq. rewrite w_q_cons in Hq.
+    split; [|intros Hl; change (is_live s t = false) in Hl; specialize (H0 Hl)]; occs; lia.
 Qed.
 
 Lemma sumf_repeat_0 {A} (f : A -> nat) x n : f x = 0 -> sumf f (repeat x n) = 0.
@@ -258,7 +265,7 @@ Proof.
   destruct (nth_error (cur s) w) as [cw|] eqn:Ec; [|discriminate].
   destruct (nth_error (hand s) w) as [hw|] eqn:Eh; [|discriminate].
   destruct (nth_error (dq s) w) as [qw|] eqn:Eq; [|discriminate].
-  destruct m as [c|c| |v|j| | | |x| | ].
+  destruct m as [c|c| |v|j| | | |x| | |v].
   - destruct cw as [|p|p]; try discriminate. destruct (is_fresh s c); [|discriminate]. injection Hm as <-.
     cbn [set_stat set_dq set_cur cur] in Hc'. erewrite nth_error_upd_same in Hc' by exact Ec.
     injection Hc' as ->. left. eauto.
@@ -286,6 +293,8 @@ Proof.
   - destruct cw as [|p|p]; try discriminate. destruct hw as [n|]; try discriminate. injection Hm as <-.
     cbn [set_hand set_cur cur] in Hc'. erewrite nth_error_upd_same in Hc' by exact Ec. injection Hc' as ->.
     right. split; [reflexivity | right; reflexivity].
+  - exfalso. destruct cw as [|p|p]; try discriminate. destruct hw as [x|]; try discriminate.
+    destruct (nth_error (dq s) v); [|discriminate]. injection Hm as <-. cbn [set_dq set_hand cur] in Hc'. congruence.
 Qed.
 
 (** a blocked (parked) thread occupies no worker: direct from the definition, stated for use by C04 *)
